@@ -48,11 +48,11 @@ theorem vadd_zeros_left (a : List α) : vadd (zeros a.length) a = a := by
   | nil => simp
   | cons x a ih => simp [List.replicate_succ, ih]
 
-theorem vadd_zeros_left' {F : Nat} {a : List α} (h : a.length = F) : vadd (zeros F) a = a := by
+theorem vadd_zeros_left_of_length {F : Nat} {a : List α} (h : a.length = F) : vadd (zeros F) a = a := by
   subst h; exact vadd_zeros_left a
 
-theorem vadd_zeros_right' {F : Nat} {a : List α} (h : a.length = F) : vadd a (zeros F) = a := by
-  rw [vadd_comm]; exact vadd_zeros_left' h
+theorem vadd_zeros_right_of_length {F : Nat} {a : List α} (h : a.length = F) : vadd a (zeros F) = a := by
+  rw [vadd_comm]; exact vadd_zeros_left_of_length h
 
 theorem foldl_vadd_length {F : Nat} (vs : List (List α)) (hvs : ∀ v ∈ vs, v.length = F)
     (z : List α) (hz : z.length = F) : (vs.foldl vadd z).length = F := by
@@ -72,18 +72,18 @@ theorem foldl_vadd_eq {F : Nat} (vs : List (List α)) (hvs : ∀ v ∈ vs, v.len
     (z : List α) (hz : z.length = F) : vs.foldl vadd z = vadd z (colSum F vs) := by
   unfold colSum
   induction vs generalizing z with
-  | nil => simp [vadd_zeros_right' hz]
+  | nil => simp [vadd_zeros_right_of_length hz]
   | cons v vs ih =>
     have hv : v.length = F := hvs v List.mem_cons_self
     have hvs' : ∀ w ∈ vs, w.length = F := fun w hw => hvs w (List.mem_cons_of_mem _ hw)
     simp only [List.foldl_cons]
     have h1 : (vadd z v).length = F := by rw [vadd_length, hz, hv]; simp
-    rw [ih hvs' (vadd z v) h1, vadd_zeros_left' hv, ih hvs' v hv, vadd_assoc]
+    rw [ih hvs' (vadd z v) h1, vadd_zeros_left_of_length hv, ih hvs' v hv, vadd_assoc]
 
 theorem colSum_nil (F : Nat) : colSum F ([] : List (List α)) = zeros F := rfl
 
 theorem colSum_singleton {F : Nat} {v : List α} (hv : v.length = F) : colSum F [v] = v := by
-  simp [colSum, vadd_zeros_left' hv]
+  simp [colSum, vadd_zeros_left_of_length hv]
 
 theorem colSum_append {F : Nat} (xs ys : List (List α)) (hx : ∀ v ∈ xs, v.length = F)
     (hy : ∀ v ∈ ys, v.length = F) :
@@ -158,7 +158,7 @@ theorem Stats.add_def (a b : Stats α) :
   rfl
 
 omit [CommSemiring α] in
-theorem Stats.ext' {a b : Stats α} (h1 : a.sum = b.sum) (h2 : a.cnt = b.cnt) (h3 : a.sq = b.sq)
+theorem Stats.ext_fields {a b : Stats α} (h1 : a.sum = b.sum) (h2 : a.cnt = b.cnt) (h3 : a.sq = b.sq)
     (h4 : a.pad = b.pad) : a = b := by
   cases a; cases b; simp_all
 
@@ -179,21 +179,21 @@ theorem statsOf_wf {F : Nat} {vs : List (List α)} (h : ∀ v ∈ vs, v.length =
   show (colSum F (vs.map vsq)).length = (colSum F vs).length
   rw [colSum_length _ (map_vsq_length h), colSum_length _ h]
 
-theorem Stats.add_assoc' (a b c : Stats α) : a + b + c = a + (b + c) := by
+theorem Stats.add_assoc_stats (a b c : Stats α) : a + b + c = a + (b + c) := by
   simp only [Stats.add_def]
-  exact Stats.ext' (vadd_assoc _ _ _) (add_assoc _ _ _) (vadd_assoc _ _ _) (add_assoc _ _ _)
+  exact Stats.ext_fields (vadd_assoc _ _ _) (add_assoc _ _ _) (vadd_assoc _ _ _) (add_assoc _ _ _)
 
 theorem Stats.add_statsOf_nil {F : Nat} (s : Stats α) (hd : s.dim = F) (hw : s.WF) :
     s + statsOf F [] = s := by
   simp only [Stats.add_def, statsOf, colSum_nil, List.map_nil, List.length_nil, Nat.cast_zero, add_zero]
   have h2 : s.sq.length = F := by rw [← hd]; exact hw
-  exact Stats.ext' (vadd_zeros_right' hd) rfl (vadd_zeros_right' h2) rfl
+  exact Stats.ext_fields (vadd_zeros_right_of_length hd) rfl (vadd_zeros_right_of_length h2) rfl
 
 theorem Stats.zero_add_statsOf {F : Nat} (vs : List (List α)) (h : ∀ v ∈ vs, v.length = F) :
     (Stats.zero F : Stats α) + statsOf F vs = statsOf F vs := by
   simp only [Stats.add_def, statsOf, Stats.zero, zero_add]
-  exact Stats.ext' (vadd_zeros_left' (colSum_length _ h)) rfl
-    (vadd_zeros_left' (colSum_length _ (map_vsq_length h))) rfl
+  exact Stats.ext_fields (vadd_zeros_left_of_length (colSum_length _ h)) rfl
+    (vadd_zeros_left_of_length (colSum_length _ (map_vsq_length h))) rfl
 
 theorem Stats.add_dim {F : Nat} (a b : Stats α) (ha : a.dim = F) (hb : b.dim = F) :
     (a + b).dim = F := by
